@@ -1,9 +1,9 @@
 (* C07 -- every AuxData value survives encode then decode unchanged.
    Model: Model/Codec.v (encode/decode dispatching through spec_table, as serialization.py does through
    Serialization.codecs), Model/Utf8.v, Model/Float32.v.  Domain predicate: Codec.wt.
-   Only property theorems here; proofs in Proofs/CodecProofs.v, Proofs/Utf8Proofs.v. *)
+   Only property theorems here; proofs in Proofs/CodecProofs.v, Proofs/Utf8Proofs.v, Proofs/Float32Proofs.v. *)
 From Coq Require Import ZArith String List.
-From V Require Import Result Bytes TypeName Utf8 Float32 Codec BytesProofs Utf8Proofs CodecProofs.
+From V Require Import Result Bytes TypeName Utf8 Float32 Codec BytesProofs Utf8Proofs CodecProofs Float32Proofs.
 Import ListNotations.
 Open Scope Z_scope.
 
@@ -26,6 +26,40 @@ Proof. exact utf8_roundtrip. Qed.
 Theorem C07_utf8_canonical : forall bs s, utf8_decode bs = Some s -> utf8_encode s = bs /\ forallb is_scalar s = true.
 Proof. exact utf8_decode_canonical. Qed.
 
+(* "float32 after rounding to float32": for EVERY double b (any 64-bit pattern, not only those wt admits) that the binary32
+   format can hold, the `float` codec writes 4 bytes and reads back exactly the binary32 rounding of b (round to nearest, ties
+   to even, subnormals and NaN quieting included), widened; a double too large for binary32 is refused with OverflowError,
+   as struct.pack('<f') does -- it is never silently turned into an infinity *)
+Theorem C07_float32_rounds : forall get b r rest, 0 <= b < 2 ^ 64 -> round32 b = Ok r ->
+  exists bs, encode (T (str "float") []) (VFloat b) = Ok bs /\ List.length bs = 4%nat /\
+             decode get (T (str "float") []) (bs ++ rest) = Ok (VFloat (widen32 r), rest).
+Proof. exact f32_roundtrip_rounds. Qed.
+
+Theorem C07_float32_overflow_refused : forall b e, round32 b = Err e ->
+  e = EOverflow /\ encode (T (str "float") []) (VFloat b) = Err e.
+Proof. intros b e H. split; [exact (proj1 (round32_err_overflow b e H)) | exact (f32_overflow_refused b e H)]. Qed.
+
+(* rounding is a projection onto the binary32 values: the rounded pattern is a 32-bit pattern, and rounding a widened binary32
+   value gives that value back (signalling NaNs come back quieted, which is what the hardware conversion does) *)
+Theorem C07_round32_range : forall b r, 0 <= b < 2 ^ 64 -> round32 b = Ok r -> 0 <= r < 2 ^ 32.
+Proof. exact round32_range. Qed.
+
+Theorem C07_round32_idempotent : forall r, 0 <= r < 2 ^ 32 -> round32 (widen32 (quiet32 r)) = Ok (quiet32 r).
+Proof. exact round32_widen32_fixed. Qed.
+
+(* the domain predicate wt admits, at type float, exactly the doubles that ARE binary32 values: for those the round trip is
+   bit for bit (this is the `float` case of C07_decode_encode made explicit) *)
+Theorem C07_float32_domain : forall get b,
+  wt get (T (str "float") []) (VFloat b) = true <-> exists r, 0 <= r < 2 ^ 32 /\ is_snan32 r = false /\ b = widen32 r.
+Proof. exact wt_float_iff. Qed.
+
+(* non-vacuity: 0.1 is not a binary32 value; it comes back as the nearest one *)
+Example C07_float32_example : forall get,
+  round32 0x3FB999999999999A = Ok 0x3DCCCCCD /\
+  encode (T (str "float") []) (VFloat 0x3FB999999999999A) = Ok [205; 204; 204; 61] /\
+  decode get (T (str "float") []) [205; 204; 204; 61; 9] = Ok (VFloat 0x3FB99999A0000000, [9]).
+Proof. intro get. vm_compute. repeat split; reflexivity. Qed.
+
 (* non-vacuity: a nested mapping with a multi-byte string, a resolved node, both int64 bounds, a variant *)
 Example C07_example :
   let get := fun u => if u =? 7 then Some 3 else None in
@@ -41,3 +75,8 @@ Print Assumptions C07_encode_total.
 Print Assumptions C07_decode_encode.
 Print Assumptions C07_utf8_roundtrip.
 Print Assumptions C07_utf8_canonical.
+Print Assumptions C07_float32_rounds.
+Print Assumptions C07_float32_overflow_refused.
+Print Assumptions C07_round32_range.
+Print Assumptions C07_round32_idempotent.
+Print Assumptions C07_float32_domain.
